@@ -78,7 +78,14 @@ impl Layout {
         }
     }
     pub fn shape(&self) -> String {
-        let mut s = format!("{}r", self.regions.len());
+        let n = self.regions.len();
+        let mut s = match n {
+            0..=8 => format!("{}r", n),
+            9..=16 => "9..16r".to_string(),
+            17..=32 => "17..32r".to_string(),
+            33..=64 => "33..64r".to_string(),
+            _ => "65+r".to_string(),
+        };
         let mut adj = false;
         let mut hole1 = false;
         for w in self.regions.windows(2) {
